@@ -352,6 +352,8 @@ impl LineProgram {
     pub fn set_address(&mut self, address: Address) {
         self.in_sequence = true;
         self.instructions.push(LineInstruction::SetAddress(address));
+        // DW_LNE_set_address also sets the op_index register to 0.
+        self.prev_row.op_index = 0;
     }
 
     /// End the sequence, and reset the row to its default values.
